@@ -231,3 +231,34 @@ func H17rev() {
 		check(start.Find("/l:c/l:sub/l:deep") == nil, "a node only the other revision has is not found")
 	}
 }
+
+// H17sub: the prefixes of an absolute path are read with the imports of the file that defines
+// the start node: a module and its submodule bind one prefix to two different modules (which of
+// them is symbolic), and the submodule knows its module by the belongs-to prefix only.
+func H17sub() {
+	mx, my := "x", "y"
+	if symBool() {
+		mx, my = "y", "x"
+	}
+	m := `module m { namespace "urn:m"; prefix m; import ` + mx + ` { prefix p; } include s; container mc { leaf ml { type string; } } }`
+	s := `submodule s { belongs-to m { prefix mm; } import ` + my + ` { prefix p; } container sc { leaf sl { type string; } } }`
+	x := `module x { namespace "urn:x"; prefix x; container data { leaf v { type string; } } }`
+	y := `module y { namespace "urn:y"; prefix y; container data { leaf v { type int8; } leaf only-y { type string; } } }`
+	ms, lerrs := hLoad(m, s, x, y)
+	check(len(lerrs) == 0, "the modules parse")
+	errs := ms.Process()
+	check(len(errs) == 0, "the modules process")
+	if len(errs) > 0 {
+		return
+	}
+	reach("processed")
+	em := ToEntry(ms.Modules["m"])
+	ml, sl := em.Dir["mc"].Dir["ml"], em.Dir["sc"].Dir["sl"]
+	tx := func(mod string) *Entry { return ToEntry(ms.Modules[mod]).Dir["data"] }
+	check(ml.Find("/p:data/p:v") == tx(mx).Dir["v"], "from a node written in the module, a prefix denotes the module's own import")
+	check(sl.Find("/p:data/p:v") == tx(my).Dir["v"], "from a node written in the submodule, a prefix denotes the submodule's own import")
+	check(sl.Find("/p:data") == tx(my) && ml.Find("/p:data") == tx(mx), "the first step lands in the tree of the module the start node's file imports under that prefix")
+	check(sl.Find("/mm:mc/mm:ml") == ml, "the submodule reaches its module's tree by the belongs-to prefix")
+	check(ml.Find("/m:sc/m:sl") == sl, "the module reaches the included nodes by its own prefix")
+	check(sl.Find("/mm:sc/mm:sl") == sl && sl.Find("../../mc/ml") == ml, "absolute and relative paths between the two files' nodes")
+}
